@@ -41,6 +41,9 @@ CHECKS = {
  "C15": ("exploration", "property-based testing / fuzz-style generation (bytes, mutated documents, selector strings, settings) with crash oracle, child-process pathological families and deterministic instruction-count ratios",
          "Arbitrary bytes, selector strings and settings must yield Ok/Err: no panic with debug assertions and overflow checks on, no internal error surfacing as ContentHandlerError, no abort/stack overflow in 10 large pathological families (child processes), and instruction counts at n and 4n (cachegrind) must stay below ratio 8.",
          "A hang is only ever reported as inconclusive by the watchdog; valgrind cachegrind instruction counts are deterministic for a fixed binary.", "4/C15"),
+ "C03": ("exploration", "property-based testing, differential against an independent implementation (html5ever 0.39 tokenizer driven by its real tree builder)",
+         "Generated tag soup over an adversarial fragment alphabet (HTML namespace) and documents from a well-nested foreign-content grammar, x capture sets x schedules: a successful strict run's full token stream (via TransformController) must equal html5ever's, an ambiguity error requires a text-mode start tag after <select>/<frameset>, and strict Ok implies an identical non-strict run.",
+         "html5ever 0.39 + rcdom is the WHATWG reference; no character references/CR/NUL; annotation-xml and <p>/<li>/<a>/<td> inside integration points excluded because html5ever deviates from the specification there; three open findings excluded by construction.", "4/C03"),
 }
 PENDING = {}
 ALL = [f"C{i:02d}" for i in range(1, 19)]
